@@ -8,6 +8,7 @@
 """
 
 import abc
+import copy
 import warnings
 from functools import partial
 from multiprocessing import Value, Lock
@@ -624,8 +625,7 @@ class SurfaceContainer(AbstractContainer):
 
         :getter: Gets the vertices
         """
-        if not self._cache['vertices']:
-            self.tessellate()
+        self.tessellate()
         return self._cache['vertices']
 
     @property
@@ -636,8 +636,7 @@ class SurfaceContainer(AbstractContainer):
 
         :getter: Gets the faces
         """
-        if not self._cache['faces']:
-            self.tessellate()
+        self.tessellate()
         return self._cache['faces']
 
     def tessellate(self, **kwargs):
@@ -669,12 +668,10 @@ class SurfaceContainer(AbstractContainer):
             * ``force``: flag to force tessellation. *Default: False*
         """
         # Keyword arguments
-        force_tsl = kwargs.get('force', False)
         update_delta = kwargs.pop('delta', True)
 
-        # Don't re-tessellate if everything is in place
-        if all((self._cache['vertices'], self._cache['faces'])) and not force_tsl:
-            return
+        # The surfaces know whether their own tessellation is up to date (and skip the work if it is); the container
+        # cannot know that, since the surfaces can be modified through their own references.
 
         # Tessellate the surfaces in the container
         num_procs = kwargs.pop('num_procs', 1)
@@ -701,11 +698,12 @@ class SurfaceContainer(AbstractContainer):
         v_offset = 0
         f_offset = 0
         for elem in self._elements:
-            v = elem.vertices
+            # Renumber copies: the surfaces keep their own vertex and face numbering (starting from zero), which
+            # the mesh exporters and a later call of this method rely on
+            v, f = copy.deepcopy((elem.vertices, elem.faces))
             for i in range(len(v)):
                 v[i].id += v_offset
             verts += v
-            f = elem.faces
             for i in range(len(f)):
                 f[i].id += f_offset
                 # for j in range(len(f[i]._data)):
@@ -1143,9 +1141,8 @@ def process_tessellate(elem, update_delta, delta, **kwargs):
     :return: updated surface
     :rtype: abstract.Surface
     """
-    if update_delta:
+    if update_delta and list(elem.delta) != list(delta):
         elem.delta = delta
-        elem.evaluate()
     elem.tessellate(**kwargs)
     return elem
 
